@@ -130,6 +130,9 @@ theorem switch_installs_callback (s : Sess) (pool : String) (hasCb : Bool)
       | none => simp [hp] at hm
       | some p =>
         simp only [hp] at hm ⊢
+        by_cases hmm : (findDest s (pool, "acct" ++ pool ++ ".w" ++ pool)).isNone ∧ s.vr ∧ p.mask ≠ s.negMask
+        · simp [hmm] at hm
+        simp only [hmm, if_false] at hm ⊢
         cases hr : resend (acquire s pool p ("acct" ++ pool ++ ".w" ++ pool)).2.1 with
         | none =>
           simp only [hr] at hm
